@@ -33,34 +33,44 @@ Definition rune3 (p0 b1 b2 : byte) : N := (hi3 p0 b1 + lo6 b2)%N.
 Definition hi4 (p0 b1 : byte) : N := ((byteN p0 mod 8) * 262144 + lo6 b1 * 4096)%N.
 Definition rune4 (p0 b1 b2 b3 : byte) : N := (hi4 p0 b1 + (lo6 b2 * 64 + lo6 b3))%N.
 
-(* the runes of a string *)
-Fixpoint runes (s : bytes) : list N :=
+(* the runes of a string, with the value an invalid byte decodes to as a parameter *)
+Fixpoint runes_with (err : byte -> N) (s : bytes) : list N :=
   match s with
   | [] => []
   | p0 :: r =>
       match lead_of p0 with
-      | LAscii => byteN p0 :: runes r
-      | LBad => rune_error :: runes r
+      | LAscii => byteN p0 :: runes_with err r
+      | LBad => err p0 :: runes_with err r
       | L2 =>
           match r with
-          | b1 :: r1 => if is_cont b1 then rune2 p0 b1 :: runes r1 else rune_error :: runes r
-          | _ => rune_error :: runes r
+          | b1 :: r1 => if is_cont b1 then rune2 p0 b1 :: runes_with err r1 else err p0 :: runes_with err r
+          | _ => err p0 :: runes_with err r
           end
       | L3 lo hi =>
           match r with
           | b1 :: b2 :: r2 =>
-              if is_cont b1 && in_rng lo hi b1 && is_cont b2 then rune3 p0 b1 b2 :: runes r2 else rune_error :: runes r
-          | _ => rune_error :: runes r
+              if is_cont b1 && in_rng lo hi b1 && is_cont b2 then rune3 p0 b1 b2 :: runes_with err r2 else err p0 :: runes_with err r
+          | _ => err p0 :: runes_with err r
           end
       | L4 lo hi =>
           match r with
           | b1 :: b2 :: b3 :: r3 =>
               if is_cont b1 && in_rng lo hi b1 && is_cont b2 && is_cont b3
-              then rune4 p0 b1 b2 b3 :: runes r3 else rune_error :: runes r
-          | _ => rune_error :: runes r
+              then rune4 p0 b1 b2 b3 :: runes_with err r3 else err p0 :: runes_with err r
+          | _ => err p0 :: runes_with err r
           end
       end
   end.
+
+(* Go's decoding (range over a string, utf8.DecodeRuneInString, strings.EqualFold): every invalid byte is U+FFFD *)
+Definition lax_err (b : byte) : N := rune_error.
+Definition runes : bytes -> list N := runes_with lax_err.
+
+(* the decoding of iri.go equalFold: an invalid byte stands for itself - here as a number above every rune,
+   0x110000 + the byte, so that the decoding stays a list of numbers *)
+Definition rune_limit : N := 1114112%N.   (* 0x110000 *)
+Definition strict_err (b : byte) : N := (rune_limit + byteN b)%N.
+Definition srunes : bytes -> list N := runes_with strict_err.
 
 (* utf8.ValidString: no byte had to be replaced *)
 Fixpoint utf8_valid (s : bytes) : bool :=
